@@ -29,10 +29,10 @@ type Log struct {
 	Addr   []byte // emitting contract
 	Topics [][]byte
 	Data   []byte
-	Kind   string   // transfer | created | decoy-topic | decoy-count
-	From   []byte   // transfer
-	To     []byte   // transfer
-	Value  uint64   // transfer
+	Kind   string   // transfer | created | tags | decoy-topic (= Approval) | decoy-count | decoy-nodata | decoy-short
+	From   []byte   // transfer; decoy-topic: owner
+	To     []byte   // transfer; decoy-topic: spender
+	Value  uint64   // transfer; decoy-topic: allowance
 	Made   []byte   // created
 	Tags   []string // tags: the elements of the string[] argument
 }
@@ -112,6 +112,10 @@ const (
 	SigCreated  = "Created(address)"
 	SigApproval = "Approval(address,address,uint256)"
 	SigTags     = "Tags(string[])"
+	// three topics and NO data (a Transfer-shaped declaration would need one word)
+	SigOwnership = "OwnershipTransferred(address,address)"
+	// three topics, emitted by a raw LOG3 with four bytes of data
+	SigPing = "Ping(address,address,bytes4)"
 )
 
 // encodeStringArray is the ABI encoding of one dynamic argument of type string[].
@@ -148,13 +152,17 @@ var (
 
 // GenOpts controls block content.
 type GenOpts struct {
-	MaxTxs    int
-	MaxLogs   int  // per transaction
-	Traces    bool // generate trace actions
-	Created   bool // generate Created(address) logs (for filter_ref graphs)
-	Decoys    bool
-	Tags      bool // generate Tags(string[]) logs (1-4 elements, some of them empty strings)
-	EmptyProb int  // percent of blocks with no transaction
+	MaxTxs  int
+	MaxLogs int  // per transaction
+	Traces  bool // generate trace actions
+	Created bool // generate Created(address) logs (for filter_ref graphs)
+	Decoys  bool
+	// TopicTwins: further decoys with the topic COUNT of Transfer / Approval but another
+	// topic0 and data shorter than one word (none at all; four bytes).  With Decoys the
+	// chain already has Approval logs (three topics, one word): "decoy-topic".
+	TopicTwins bool
+	Tags       bool // generate Tags(string[]) logs (1-4 elements, some of them empty strings)
+	EmptyProb  int  // percent of blocks with no transaction
 	// AlwaysTrace: every block above 0 has a transaction and every transaction at
 	// least one trace action (jrpc2.traces treats an empty trace_block result as an error)
 	AlwaysTrace bool
@@ -221,9 +229,18 @@ func GenBlock(r *lib.RNG, tag int, num uint64, parent []byte, o GenOpts, st *Gen
 				l.Topics = [][]byte{Topic0(SigCreated), word(l.Made)}
 				st.Created = append(st.Created, l.Made)
 			case o.Decoys && k < 40:
+				// an Approval: a decoy for the Transfer shapes, THE event of shape "appr"
 				l.Kind, l.Addr = "decoy-topic", TokenAddr
-				l.Topics = [][]byte{Topic0(SigApproval), word(Addr(1)), word(Addr(2))}
-				l.Data = wordU64(uint64(r.Intn(99)))
+				l.From, l.To, l.Value = Addr(1), Addr(2), uint64(r.Intn(99))
+				l.Topics = [][]byte{Topic0(SigApproval), word(l.From), word(l.To)}
+				l.Data = wordU64(l.Value)
+			case o.TopicTwins && k >= 90 && k < 95:
+				l.Kind, l.Addr = "decoy-nodata", TokenAddr
+				l.Topics = [][]byte{Topic0(SigOwnership), word(Addr(3)), word(Addr(4))}
+			case o.TopicTwins && k >= 95:
+				l.Kind, l.Addr = "decoy-short", TokenAddr
+				l.Topics = [][]byte{Topic0(SigPing), word(Addr(3)), word(Addr(4))}
+				l.Data = []byte{0xde, 0xad, 0xbe, 0xef}
 			case o.Decoys && k < 50:
 				// same topic0, other topic count (ERC-721 style Transfer)
 				l.Kind, l.Addr = "decoy-count", TokenAddr
